@@ -76,6 +76,7 @@ def main():
     src, sid, prop = args[0], args[1], args[2]
     checks = args[3:] or [prop]
     meta = json.load(open(os.path.join(src, "meta.json")))
+    meta.setdefault("files", meta.get("files"))
     conf = confirm(src)
     print("confirm:", conf)
     ok = conf.get("applies") and conf.get("suite_green") and conf.get("demo_with") not in (0, None) and conf.get("demo_without") == 0
@@ -86,8 +87,9 @@ def main():
         for c, r in res.items():
             print("  check %s: exit=%s %.0fs keys=%s %s" % (c, r["exit"], r["wall_s"], r["violation_keys"][:3], "HARNESS!" if r["harness"] else ""))
         os.makedirs(dst, exist_ok=True)
-        shutil.copy(os.path.join(src, "patch.diff"), dst)
-        shutil.copy(os.path.join(src, "demo.py"), dst)
+        if os.path.abspath(src) != os.path.abspath(dst):
+            shutil.copy(os.path.join(src, "patch.diff"), dst)
+            shutil.copy(os.path.join(src, "demo.py"), dst)
         old = {}
         if os.path.exists(os.path.join(dst, "meta.json")):
             old = json.load(open(os.path.join(dst, "meta.json")))
